@@ -139,3 +139,12 @@ func binHang(res *fw.Result, br fw.BinResult, tag string, files map[string]strin
 	}
 	res.Inconclusive = append(res.Inconclusive, "binary watchdog fired ("+tag+")")
 }
+
+// noFinalNL returns the text without its final newline in about one case in eight: a file whose
+// last line is not newline-terminated is the same file.
+func noFinalNL(r *fw.Rng, s string) string {
+	if r.Chance(0.12) {
+		return strings.TrimSuffix(s, "\n")
+	}
+	return s
+}
